@@ -17,15 +17,17 @@
    everything below it (after, with contents_first); with a sort installed siblings come in name order,
    grouped by kind with dirs_first / files_first; and paths/dirs/files/all_* return exactly the entries
    strictly below an existing directory (one level for the shallow helpers) of the asked kind, each
-   once, never the argument.  Memfs/WalkFollow.v proves that the denotation is ALWAYS defined, links
+   once, never the argument.  Memfs/WalkLex.v: a sorted traversal with none of follow / dirs_first / files_first / contents_first
+   yields its paths in strictly increasing lexicographic order, and a set of paths has exactly one such ordering, so the whole
+   output sequence of the listing helpers is determined by the tree (Memfs/RefineList.v states it without a traversal).  Memfs/WalkFollow.v proves that the denotation is ALWAYS defined, links
    followed or not: a followed link whose target is already open above it is reported as LinkLooping, every
    other followed link adds a new path to the open directories and a plain child is one level deeper, so
    no descent is endless.  PARTIAL: with links followed, that the mirror's fuel (an artefact of the model;
    the code has none) covers the recursion's steps is exercised (driver comparison machine vs recursion on
    every explored call; tools/walkspec.py judges the yielded multiset), not proved. *)
-From stdpp Require Import gmap.
+From stdpp Require Import gmap sorting.
 From Coq Require Import NArith.
-From RV Require Import Base.Str Path.Helpers Memfs.State Memfs.Walk Memfs.WalkFacts Memfs.WalkSpec Memfs.WalkTerm Memfs.WalkExact Memfs.WalkFollow Memfs.Wf Memfs.Ops Memfs.WalkOps Path.Expand.
+From RV Require Import Base.Str Path.Helpers Memfs.State Memfs.Walk Memfs.WalkFacts Memfs.WalkSpec Memfs.WalkTerm Memfs.WalkExact Memfs.WalkLex Memfs.WalkFollow Memfs.Wf Memfs.Ops Memfs.WalkOps Path.Expand.
 
 Theorem C08_walk_no_panic : forall sn o pre p, walk sn o pre p <> inl Panic.
 Proof. exact walk_no_panic. Qed.
@@ -95,6 +97,18 @@ Theorem C08_listing_exact : forall env m k s p, WF m -> resolve env m s = inl p 
                      (shallow k = true -> length q = S (length p)) /\ kind_sel k x = true.
 Proof. exact listing_exact. Qed.
 Print Assumptions C08_listing_exact.
+
+(* a sorted traversal without follow, dirs_first, files_first and contents_first yields its paths in strictly increasing lexicographic
+   order of their component lists (names compared as sort_by_name compares them): the whole sequence, not only siblings, is determined *)
+Theorem C08_walk_sorted : forall m o pre rootp r evs, WF m -> plain_sorted o -> (forall x, pre x = None) -> m_ents m !! rootp = Some r ->
+  walk (m_ents m) o pre rootp = inl (Done evs) -> StronglySorted plex (map e_path (oks evs)).
+Proof. exact walk_sorted. Qed.
+Print Assumptions C08_walk_sorted.
+
+Theorem C08_order_determined : forall l1 l2 : list (list (list N)), StronglySorted plex l1 -> StronglySorted plex l2 -> NoDup l1 -> NoDup l2 ->
+  (forall q, q ∈ l1 <-> q ∈ l2) -> l1 = l2.
+Proof. exact plex_sorted_unique. Qed.
+Print Assumptions C08_order_determined.
 
 (* the denotation is defined for every snapshot, option record (links followed or not), pre_op and start: no endless descent *)
 Theorem C08_denotation_defined : forall (E : gmap (list (list N)) entry) o pre r, key_ok E ->
